@@ -1,6 +1,6 @@
 """C02 -- message framing ignores stream segmentation; an incomplete frame has no effect."""
 from vrt import glue, sim, srv, ref_cip as ref
-from vrt.ob import define, obligation
+from vrt.ob import define, obligation, concretize
 import cpppo
 from cpppo.server.enip import parser, device, logix, main as enip_main
 
@@ -13,6 +13,7 @@ M = parser.enip_machine(context='enip', terminal=True)
 
 
 def frame(command, length, sess, payload):
+    length = concretize(length, len(payload) + 1)
     return ref.encap(command, sess, 0, [1, 2, 3, 4, 5, 6, 7, 8], 0, payload[:length])
 
 
@@ -40,6 +41,7 @@ def feed(stream, cuts):
 
 
 def same(data, command, length, sess, payload):
+    length = concretize(length, len(payload) + 1)
     e = data.enip
     return (e.command == command and e.length == length and e.session_handle == sess and e.status == 0 and e.options == 0
             and [x for x in e.sender_context.input] == [1, 2, 3, 4, 5, 6, 7, 8] and [x for x in e.get('input', [])] == payload[:length])
@@ -47,22 +49,25 @@ def same(data, command, length, sess, payload):
 
 def do_two_way(command, length, sess, p, cut):
     stream = frame(command, length, sess, p) + [0xAA, 0xBB, 0xCC]      # the beginning of the next frame follows
+    length = concretize(length, len(p) + 1)
     total = 24 + length
-    cut = cut % (len(stream) + 1)
+    cut = concretize(cut, len(stream) + 1)
     d, sent, nxt, term = feed(stream, [cut])
     return term and sent == total and nxt == 0xAA and same(d, command, length, sess, p)
 
 
 def do_three_way(command, length, sess, p, c1, c2):
     stream = frame(command, length, sess, p) + [0xAA, 0xBB]
+    length = concretize(length, len(p) + 1)
     total = 24 + length
-    c1 = c1 % (len(stream) + 1)
-    c2 = c1 + c2 % (len(stream) + 1 - c1)
+    c1 = concretize(c1, len(stream) + 1)
+    c2 = c1 + concretize(c2, len(stream) + 1 - c1)
     d, sent, nxt, term = feed(stream, [c1, c2])
     return term and sent == total and nxt == 0xAA and same(d, command, length, sess, p)
 
 
 def do_bytewise(command, length, sess, p):
+    length = concretize(length, len(p) + 1)
     stream = frame(command, length, sess, p) + [0xAA]
     d, sent, nxt, term = feed(stream, list(range(1, len(stream))))
     d1, sent1, nxt1, term1 = feed(stream, [])
@@ -93,11 +98,13 @@ define(globals(), 'C02', 'frame_three_chunks', ['command', 'length', 'sess'] + p
 
 
 def do_two_frames(l1, l2, sess, p, cut):
+    l1 = concretize(l1, 3)
+    l2 = concretize(l2, 3)
     """two coalesced frames, one cut anywhere: two parses from the same source give frame 1 then frame 2"""
     f1 = frame(0x6f, l1, sess, p)
     f2 = frame(0x70, l2, sess + 1, [9, 8, 7])
     stream = f1 + f2
-    cut = cut % (len(stream) + 1)
+    cut = concretize(cut, len(stream) + 1)
     chunks = [stream[:cut], stream[cut:]]
     src = cpppo.chainable(chunks.pop(0))
     out = []
@@ -149,9 +156,9 @@ def do_truncate(v, c, t, cut):
     f0, f1, f2 = request_stream(v, c)
     stream = f0 + f1 + f2
     e0, e1, e2 = len(f0), len(f0) + len(f1), len(stream)
-    t = t % (e2 + 1)
+    t = concretize(t, e2 + 1)
     part = stream[:t]
-    cut = cut % (t + 1)
+    cut = concretize(cut, t + 1)
     chunks = [bytes(bytearray(part[:cut])), bytes(bytearray(part[cut:]))] if t else []
     chunks = [ch for ch in chunks if ch]
     sent, closed, err, calls, leaked = srv.serve(chunks, tags=TAGS)
